@@ -677,8 +677,10 @@ def c11(ck):
                "another); the same under the race detector")
     q = ck.quick
     for sh, expect_deadlock in (("FALSE", False), ("TRUE", True)):
-        c = "SPECIFICATION Spec\nCONSTANT Sharing = %s\nCONSTANT Readers = {11, 12}\nCONSTANT Writers = {1, 2}\n" \
-            "INVARIANT ReadsSeeLatestSet\nINVARIANT NoTornRead\nCHECK_DEADLOCK TRUE\n" % sh
+        big = (not q) and not expect_deadlock     # thorough: three readers and three writers (1.6 M states)
+        c = "SPECIFICATION Spec\nCONSTANT Sharing = %s\nCONSTANT Readers = {%s}\nCONSTANT Writers = {%s}\n" \
+            "INVARIANT ReadsSeeLatestSet\nINVARIANT NoTornRead\nCHECK_DEADLOCK TRUE\n" % (
+                sh, "11, 12, 13" if big else "11, 12", "1, 2, 3" if big else "1, 2")
         r = ck.tlc("EnvLock", c, timeout=600, deadlock=True, want_cases=False)
         if not expect_deadlock and r.exit != 0:
             raise InfraError("EnvLock: TLC exit %s\n%s" % (r.exit, tail(r.stdout_path)))
